@@ -3,7 +3,8 @@
    assumed about them are the two hypotheses of the assembly theorems (completeness of aggregation, length of an
    aggregate signature). *)
 From Coq Require Import List NArith Bool Permutation.
-From LE Require Import Cert.Bits Cert.BitsProofs Cert.AggCommit Cert.AggCommitProofs Cert.AssembleProofs Cert.Pool Cert.PoolProofs.
+From Coq Require Import Sorting.Sorted.
+From LE Require Import Cert.Bits Cert.BitsProofs Cert.AggCommit Cert.AggCommitProofs Cert.SortProofs Cert.AssembleProofs Cert.Pool Cert.PoolProofs.
 Import ListNotations.
 Local Open Scope N_scope.
 
@@ -25,6 +26,38 @@ Theorem C06_verify_sound : forall (sigT msgT : Type) (sig_len0 : sigT -> bool) (
     e_mhc e < ac_height a /\ ac_height a <= e_mhp e /\
     (forall nh, next_params e (u32 (e_mhc e + 1)) = Some nh -> ac_height a <= sub32 nh 1).
 Proof. exact verify_sound. Qed.
+
+(* what the three model functions used in C06_verify_sound mean *)
+(* "the parameters of that height": the entry of the parameter store with the greatest key <= h *)
+Theorem C06_get_params_is_greatest_key_le : forall e h,
+  match get_params e h with
+  | Some p => exists k, In (k, p) (e_params e) /\ k <= h /\ forall k' p', In (k', p') (e_params e) -> k' <= h -> k' <= k
+  | None => forall k p, In (k, p) (e_params e) -> h < k
+  end.
+Proof. exact get_params_spec. Qed.
+
+(* "the next validator-set change": NextHeightBFTParameters(x) is the least key >= uint32(x+1); verify calls it with
+   x = uint32(maxHeightCertified+1), i.e. the least parameter height >= maxHeightCertified + 2 *)
+Theorem C06_next_params_is_least_key_ge : forall e x,
+  match next_params e x with
+  | Some k => u32 (x + 1) <= k /\ (exists p, In (k, p) (e_params e)) /\
+              forall k' p', In (k', p') (e_params e) -> u32 (x + 1) <= k' -> k <= k'
+  | None => forall k p, In (k, p) (e_params e) -> k < u32 (x + 1)
+  end.
+Proof. exact next_params_spec. Qed.
+
+(* "ascending key order": the list verify / Aggregate work on is sorted by bytes.Compare on the BLS key ... *)
+Theorem C06_sort_is_ascending : forall vs,
+  StronglySorted (fun x y => lex_lt (v_key y) (v_key x) = false) (sort_by v_key vs).
+Proof. exact (sort_by_sorted v_key). Qed.
+
+(* ... so the signers picked by the bitmap are exactly the validators whose rank (number of validators of the set with a
+   smaller BLS key) has its bit set *)
+Theorem C06_signers_are_the_validators_with_rank_bit_set : forall (vs : list validator) bits signers,
+  NoDup (map v_key vs) -> select_from bits 0 (sort_by v_key vs) = Some signers ->
+  forall v, In v signers <->
+            In v vs /\ read_bit bits (length (filter (fun w => lex_lt (v_key w) (v_key v)) vs)) = Some true.
+Proof. exact signers_by_rank. Qed.
 
 (* the uint32 expression heightNextBFTParams-1 is the predecessor for every real parameter height *)
 Theorem C06_next_bound_is_predecessor : forall nh, 0 < nh -> nh < 2 ^ 32 -> sub32 nh 1 = nh - 1.
